@@ -23,13 +23,14 @@ REG = {
         "suites": [("text", (5000, 50000))],
         "rule": _RULE + "; 70% of the cases carry one injected fault, 10% two (24 categories: syntax, bad type, undefined type/identifier, bad expression, "
                         "every directive misuse, bad names, bad constants, duplicate names, union arity, extent, aggregation, deprecation) at a random "
-                        "position of a random definition (target or dependency at depth 1-3), 20% none (@print delivery only)",
-        "technique": "Lean 4 theorems over the reader model with line numbers and the location-injection rule + differential correspondence on (path, line, @print deliveries) + independent oracle from the rendered text",
-        "level_text": "For the modelled reader it is proved in Lean 4 that a fault raised while a statement is visited is reported with that statement's own line and file for every surrounding line shape, that a line already known is never overwritten, and that every @print of a definition read without dependencies is delivered exactly once with its own line; the statements that are false for the real code (lazily committed attributes, finalize-time errors of dependencies, @print in dependencies) are kept as *_statement with decided counterexamples; the model is tied to /repo by differential runs on generated faulty definitions.",
+                        "position of a random definition (target or dependency at depth 1-3), 20% none (@print delivery only); 6% of the namespaces "
+                        "contain string literals with raw line breaks (one statement on two physical lines)",
+        "technique": "Lean 4 theorems over the reader model with line numbers and the location-injection rules + differential correspondence on (path, line, @print deliveries) + independent oracle from the rendered text",
+        "level_text": "For the modelled reader it is proved in Lean 4, for all documents and all line shapes, that a failed read reports either the untouched error of a referenced definition, or the own path without a line (finalize), or the own path with the number of a line that holds a statement (never a blank/comment line, also behind statements that span several physical lines); that an error raised while a lazily queued attribute is committed carries the line of the attribute's own statement; that at any dependency depth the definition at the reported path fails on its own with exactly the reported error; and that every @print of definitions without references is delivered exactly once with its own path and line. The statement that is false for the real code (@print in dependencies) is kept as *_statement with a decided counterexample; the model is tied to /repo by differential runs on generated faulty definitions.",
         "level_note": "Trusted: Lean kernel, standard axioms; the hand-written reader model is validated against the code by differential testing only; which Python statement raises first inside one DSDL statement is abstracted to a phase marker supplied by the generator.",
-        "partial": ["C17.line for lazily committed attribute faults (reported at the line of the commit): false for the code, see C17.line_commit_counterexample",
-                    "C17 path/line for finalize-time errors of a dependency (referrer's line) and @print in dependencies (referrer's path, possibly twice): false for the code, counterexamples decided on the model",
-                    "the phase of a fault inside a statement is supplied by the generator, not derived from the text"],
+        "partial": ["@print in a referenced definition is delivered with the referrer's path, and twice when the definition is also an earlier target: false for the code (known findings), C17.print_counterexample; proved only for definitions without references",
+                    "the phase of a fault inside a statement (before / after the first identifier, in the handler, at commit) is supplied by the generator, not derived from the text",
+                    "@print deliveries that precede an error are compared by the correspondence only"],
         "assumptions": ["the Lean model Model/Reader.lean mirrors _parser.py/_error.py/_dsdl_definition.py/_namespace_reader.py (validated by the text correspondence on every run)"],
     },
     "C05": {
@@ -43,10 +44,9 @@ REG = {
                 "port-IDs at every range end +-1 with and without allow_unregulated, full-name length 254..257 incl. the .Response suffix); "
                 "the oracle re-evaluates the declarative rules on the mutated abstract definition",
         "technique": "Lean 4 theorems over an executable model of the constructor / builder checks (accept = ok iff the declarative rule conjunction, per-rule kernel lemmas for all values) + differential correspondence with read_namespace on rendered definitions + independent Python rule evaluator",
-        "level_text": "For the modelled checks (type constructors, check_name, attribute constructors, aggregation checks, directive/marker handlers, composite/union/delimited/service constructors, port-ID ranges) it is proved in Lean 4 that a definition is accepted exactly when the conjunction of the named static rules of the property holds, with per-rule lemmas for all widths, capacities, names (reserved words and patterns in any letter case), versions, port-IDs, statement orders; the model is tied to /repo on every run by differential runs on generated definitions with violations at every boundary.",
+        "level_text": "For the modelled checks (type constructors, check_name, attribute constructors, aggregation checks, directive/marker handlers, composite/union/delimited/service constructors, port-ID ranges) it is proved in Lean 4 that a definition is accepted exactly when the conjunction of the named static rules of the property holds and is rejected (InvalidDefinitionError) otherwise, with per-rule lemmas for all widths, capacities, names (reserved words and patterns in any letter case), versions, port-IDs, statement orders; the model is tied to /repo on every run by differential runs on generated definitions with violations at every boundary.",
         "level_note": "Trusted: Lean kernel, standard axioms; the hand-written model of the checks is validated against the code by differential testing only; regular expressions of _name.py are transcribed by hand into list functions; names are ASCII in the model; constant values and expressions are outside this model (C04/C12); the longest-representation function used by the extent rule is the one of the model (its agreement with the real layout is C02's claim).",
-        "partial": ["'every rejection is an InvalidDefinitionError' is false for a service type used as a field type (InternalError): kept as C05.rejection_statement with a decided counterexample",
-                    "str.lower() is modelled for ASCII only: a name containing U+212A KELVIN SIGN is accepted by the code (check_name validates the lowered name) and rejected by the rule",
+        "partial": ["names are ASCII in the model (any non-ASCII character fails the character-set rule, as in the code since 000d3f2)",
                     "grammar-level rejections (width 0, cast mode on bool) are rejected in the model by the same rule predicates, the grammar itself is not modelled here"],
         "assumptions": ["the Lean model Model/Rules.lean mirrors the constructor and builder checks (validated by the rules correspondence on every run)"],
     },
